@@ -162,6 +162,17 @@ var l2CorpusPG = []corpusStmt{
 	{":many", "SELECT id FROM authors JOIN books USING (id), venues", nil, nil, nil},
 	{":many", "SELECT authors.id FROM authors JOIN books USING (id) JOIN venues USING (id)", nil, nil, nil},
 	{":one", "SELECT * FROM authors JOIN books USING (id) WHERE authors.name = $1", nil, nil, nil},
+	// LIMIT / OFFSET placeholders of a sub-select that sits inside an expression, a SET value, a function argument
+	{":many", "SELECT id FROM authors WHERE age < (SELECT age FROM authors ORDER BY id LIMIT 1 OFFSET $1)", nil, nil, nil},
+	{":many", "SELECT id FROM authors WHERE name = ANY(ARRAY(SELECT name FROM authors ORDER BY id LIMIT $1))", nil, nil, nil},
+	{":exec", "UPDATE authors SET age = (SELECT age FROM authors ORDER BY id LIMIT 1 OFFSET $2) WHERE id = $1", nil, nil, nil},
+	{":many", "SELECT id, (SELECT title FROM books ORDER BY id LIMIT $1) AS first_title FROM authors", nil, nil, nil},
+	{":many", "SELECT id FROM authors WHERE id IN (SELECT author_id FROM books ORDER BY id LIMIT $1 OFFSET $2)", nil, nil, nil},
+	// two relations that share a bare name across schemas, one of them without an alias
+	{":many", "SELECT a.id FROM archive.books a, books WHERE books.title = $1", nil, nil, nil},
+	{":many", "SELECT a.id FROM books a, archive.books WHERE books.archived_at = $1", nil, nil, nil},
+	{":many", "SELECT books.id FROM books JOIN archive.books a ON a.id = books.id WHERE books.title = $1 AND a.title = $2", nil, nil, nil},
+	{":many", "SELECT v.id FROM archive.venues v, venues WHERE venues.slug = $1 AND v.note = $2", nil, nil, nil},
 }
 
 var l2CorpusMy = []corpusStmt{
